@@ -22,6 +22,7 @@ package input
 
 import (
 	"fmt"
+	"strings"
 
 	"github.com/gontainer/gontainer-helpers/v3/grouperror"
 	"github.com/gontainer/gontainer/internal/pkg/maps"
@@ -88,7 +89,8 @@ func ValidateMetaImports(m Meta) error {
 	var errs []error
 	for _, a := range maps.Keys(m.Imports) {
 		imp := m.Imports[a]
-		if !regexMetaImport.MatchString(imp) {
+		// "." denotes the current package in expressions, an alias cannot stand for it
+		if !regexMetaImport.MatchString(imp) || strings.Trim(imp, `"`) == "." {
 			errs = append(errs, fmt.Errorf("invalid import %+q", imp))
 		}
 		if !regexMetaImportAlias.MatchString(a) {
